@@ -185,7 +185,7 @@ def ev_vcv(case, rec):
                 continue
             rec.nontriv((la, lo, repr(m), name))
             rec.state((name, out.tobytes().hex()[:48]))
-            cfg.forms_agree(rec, lambda vf: f(vf, la, lo), m, out, 'statistics:vcv_' + name, one, {'lat': la, 'lon': lo}, name)
+            cfg.forms_agree(rec, lambda vf: f(vf, la, lo), m, out, 'statistics:vcv_' + name, one, {'lat': la, 'lon': lo}, name, matrix_class=True)
             scale = max(float(np.max(np.abs(M))), 1e-300)
             sym = float(np.max(np.abs(out - out.T))) / scale
             w0, w1 = np.linalg.eigvalsh(M), np.linalg.eigvalsh((out + out.T) / 2)
@@ -233,7 +233,7 @@ def ev_vcv(case, rec):
             else:
                 rec.outcome('col-ok')
                 # the same column held in other array objects (read-only, strided, integer / float32 dtypes where exact)
-                cfg.forms_agree(rec, lambda vf: f(vf, la, lo), c, out, 'statistics:vcv_' + name + ':column', one, {'lat': la, 'lon': lo}, name + ' (3x1 column)')
+                cfg.forms_agree(rec, lambda vf: f(vf, la, lo), c, out, 'statistics:vcv_' + name + ':column', one, {'lat': la, 'lon': lo}, name + ' (3x1 column)', matrix_class=True)
     rec.sample({'pos': case['pos'], 'first': case['mats'][0]})
 
 
@@ -277,7 +277,7 @@ def ev_ell(case, rec):
         a, b, brg, w = ellipse_oracle(m)
         scale = max(abs(w[1]), 1e-300)
         if st == 'ok':
-            cfg.forms_agree(rec, error_ellipse, m, r, 'statistics:error_ellipse', one, {}, 'error_ellipse')
+            cfg.forms_agree(rec, error_ellipse, m, r, 'statistics:error_ellipse', one, {}, 'error_ellipse', matrix_class=True)
         if st != 'ok':
             rec.fail('error_ellipse raised on a positive semi-definite matrix', site='statistics:error_ellipse:raise', observed=r,
                      case=one, coords={'eig': w.tolist()})
